@@ -167,6 +167,21 @@ def r1(ctx):
         sol = ("obj", ("static", mod + "::SOLUTIONS"))
         want_unchecked = ("adt", "chess_bitboard::BitBoard", "BitBoard", (("obj", ("app", "core::slice::<impl [u64]>::get_unchecked::<usize>", (("refv", sol), ("cast", "usize", idx)))),))
         ok = rets == {want} or rets == {want_unchecked}
+        # every arm of the function, including the one this build configuration folds away (`if cfg!(debug_assertions)` keeps both in the MIR),
+        # must read this slider's own tables: a read of the other slider's MAGICS/SOLUTIONS in the release arm would never be seen by a debug build
+        from analysis.facts import walk_operands as _wo
+        from analysis import k2 as _k2
+        others = set()
+        for fk in _k2.private_closure(P, key):
+            for blk in P.body(fk)["blocks"]:
+                for s_ in blk["s"] + [blk["t"]]:
+                    for o_ in _wo(s_):
+                        c_ = o_.get("c") or {}
+                        tgt = c_.get("ptr", {}).get("static") if isinstance(c_.get("ptr"), dict) else None
+                        if tgt and tgt.startswith("chess_lookup::") and "_moves::" in tgt and not tgt.startswith(mod + "::"):
+                            others.add(tgt)
+        ctx.ob(f"{kind}_moves reads only its own tables", not others, f"{key} refers to {sorted(others)}: a table of the other slider (possibly in an arm this configuration does not execute)",
+               site=P.body(key).get("def_span"), sample={"foreign_tables": sorted(others)})
         ctx.ob(f"{kind}_moves formula", ok, f"{key} returns {[T.show(r)[:300] for r in rets]}; expected {T.show(want)[:300]}", site=P.body(key).get("def_span"),
                sample={"term": T.show(want)[:200]})
 
